@@ -94,7 +94,13 @@ void *alloc_array(size_t item_size, size_t nmemb)
 		g_fault = true;
 		return NULL;
 	}
-	return calloc(1, size);
+	{
+		void *p = calloc(1, size);
+
+		if (p == NULL)
+			g_fault = true;
+		return p;
+	}
 }
 
 #include "lib/sqfs/src/write_table.c"
@@ -129,6 +135,10 @@ void harness(void)
 			     "C14.write_table.one_write_at_start");
 	}
 	VERIF_ASSERT(g_mw_live == 0, "C14.write_table.writer_released");
+#ifdef C13_CHECKS
+	VERIF_ASSERT(!g_fault || ret != 0, "C13.write_table.propagates");
+	VERIF_ASSERT(ret == 0 || g_fault, "C13.write_table.fails_only_on_fault");
+#endif
 	VERIF_COVER(ret == 0 && table_size == 0);
 	VERIF_COVER(ret == 0 && table_size == 3 * SQFS_META_BLOCK_SIZE + 5);
 	VERIF_COVER(ret == 0 && table_size == TABLE_MAX);
